@@ -338,6 +338,21 @@ def templates_shard(res, rng):
         ]
         if w % 8 == 0:
             shapes += [["eq", x, ["reverse", x]], ["reverse", ["add", x, ["bvv", 1, w]]], ["ult", ["reverse", x], y], ["eq", ["reverse", ["reverse", x]], x], ["sub", ["reverse", x], x], ["extract", 7, 0, ["reverse", x]]]
+        if w <= 4:
+            # different variables with the same declared range behind undecided conditions over a fourth variable: an If
+            # is not "its first arm" (the backend identifies values by the name an interval carries)
+            z, dd = G.bvs("c", w), G.bvs("d", w)
+            c1, c2 = ["eq", dd, ["bvv", 1, w]], ["ult", dd, ["bvv", 2, w]]
+            i1, i2 = ["ite", c1, x, y], ["ite", c2, x, z]
+            for d in (["eq", i1, i2], ["ne", i1, i2], ["sub", i1, i2], ["eq", i1, x], ["ult", i1, i2], ["xor", i1, ["ite", c2, x, y]], ["eq", ["ite", c1, x, y], ["ite", c1, y, x]]):
+                for _ in range(4):
+                    same = rand_ann(rng, w)
+                    anns = {f"a{w}": (w, same), f"b{w}": (w, same), f"c{w}": (w, same), f"d{w}": (w, None)}
+                    res.count("same_range_different_variable_cases")
+                    try:
+                        run_case(res, rng, d, anns, [], "templates")
+                    except Exception:  # noqa: BLE001
+                        res.violation({"kind": "harness-error", "what": "case-raised", "case": {"expr": d}, "tb": traceback.format_exc()[-1500:]})
         for d in shapes:
             for _ in range(6 if w <= 4 else 3):
                 anns = {f"a{w}": (w, rand_ann(rng, w)), f"b{w}": (w, rand_ann(rng, w))}
